@@ -505,10 +505,13 @@ class Gen:
         arrived = []
         if how != "idle" and r.random() < 0.5:
             arrived = [r.choice(["pob", "pou"]) for _ in range(r.randrange(1, 3))]
-            ops += arrived + ["settle:30"]
+            # no pause but a barrier: a datagram the peer sends AFTER it opened the streams; once the adapter side has
+            # read it, the streams have arrived too (a pause of 30 ms was not enough on a machine other builds keep busy)
+            ops += arrived + ["pdgs:1:%d" % self.seed(), "dgr"]
         if how == "pclose":
-            # something that waits makes the close known (an open would succeed at once)
-            ops += ["pclose:%d" % c, r.choice(["ab", "ar", "dgr", "settle:40"])] if not arrived else ["pclose:%d" % c, "settle:40"]
+            # something that WAITS makes the close known (an open would succeed at once; an accept would take an
+            # arrived stream first): an awaited accept, or an awaited datagram read when streams are waiting
+            ops += ["pclose:%d" % c, r.choice(["ab", "ar", "dgr"])] if not arrived else ["pclose:%d" % c, "dgr"]
         elif how == "idle":
             ops += [r.choice(["ab", "ar", "dgr"])]
         elif how == "oclose":
@@ -720,7 +723,10 @@ class C17(Prop):
                   "against every script: accepted bytes in order, each once, the caller's Buf (any chunking) advanced by exactly what "
                   "was accepted and reported, error last, refused (not a panic, D-17b repaired) while a framed write is unfinished; "
                   "the receive ownership machine over every operation sequence: recv_id = creation id, never panics, a stop during a "
-                  "pending read is issued exactly once; the unsplit BidiStream only delegates: ids constant before and after split, "
+                  "pending read is issued exactly once, and - against a specification written from the caller's side (StopSpec, "
+                  "reading R-17) - the first stop Quinn is given carries a code that is DUE (asked with no read in flight, or the "
+                  "read in flight has completed since) as soon as it is due, never one that was not asked; the unsplit BidiStream "
+                  "only delegates: ids constant before and after split, "
                   "split yields the halves the same operations would have produced; opening through Connection / opener() / a clone "
                   "hands out exactly the streams Quinn created, in order, each once, both halves under Quinn's id, errors as "
                   "ConnectionErrorIncoming; close passes exactly (code, reason); the five error conversions as TOTAL finite tables "
@@ -740,7 +746,10 @@ class C17(Prop):
                   "tables: ConnectionError::CidsExhausted, ReadError::ClosedStream (every path that retires the stream also sets "
                   "Quinn's all_data_read), ReadError::IllegalOrderedRead (the adapter only reads ordered: the panic arm is dead code)")
     rule = ("cases: scenario templates write-fidelity / refusal / truncating finish / ids / read-state ids / peer reset / peer stop / "
-            "peer close / idle timeout / local conditions / stop during pending read; second part: unframed fidelity / unframed "
+            "peer close / idle timeout / local conditions / stop during pending read / stop_sending in every read state with the "
+            "peer asked before the next read / every HTTP/3 (0x100-0x110) and QPACK (0x200-0x202) code through every condition that "
+            "carries a code / every accept and open call site (Connection, opener(), clone; polled once and awaited) after peer "
+            "close, idle timeout and own close on every connection shape; second part: unframed fidelity / unframed "
             "partial writes / poll_send guard / poll_send errors / opening under stream limits / open+accept after failure / "
             "close(code, reason) / accepting / datagrams / special handshakes (rej kill z0 z0r z0t z0v); the bidirectional stream "
             "under test is left unsplit in about a third of the cases; parameters from the seeded PRNG; "
@@ -749,12 +758,17 @@ class C17(Prop):
             "counted (NOTE line)")
     trusted = ["quinn 0.11 / quinn-proto / rustls / tokio / loopback UDP (observed, not modelled)",
                "the environment assumptions about Quinn in lean/H3/Drv/C17.lean (window budget, which Quinn error a peer action "
-               "raises, first stop wins, implicit STOP_SENDING(0) on drop, RFC 9000 stream numbering, stream credit = "
+               "raises, first stop wins, implicit STOP_SENDING(0) on drop, a reset is reported once and reads after it answer the "
+               "end, RFC 9000 stream numbering, stream credit = "
                "max_concurrent + streams the peer finished with, announced when it exceeds 1/8 of max_concurrent, arrived streams "
                "and datagrams are handed out before the connection's error, a rejected 0-RTT attempt is forgotten), each "
                "exercised by the correspondence run",
                "loopback UDP does not lose the (unretransmitted) datagrams of the datagram scenarios"]
-    assumptions = ["the caller's Buf yields its bytes chunk by chunk (list of chunks)",
+    assumptions = ["reading R-17 (DESIGN.md section 9): the sentence on errors speaks about conditions the peer / the transport raise "
+                   "and h3 is told; that the code of the adapter side's own stop_sending reaches the peer is demanded as the adapter's "
+                   "documented behaviour (pending_stop) where the stream is or comes back in hand, not where the read in flight "
+                   "never completes; a condition surfaces on the first call that meets it",
+                   "the caller's Buf yields its bytes chunk by chunk (list of chunks)",
                    "poll_write accepts at most the bytes it is offered",
                    "the h3::quic call pattern: poll_ready is driven to Ready before poll_finish (a finish with an unfinished "
                    "buffer truncates it: modelled and observed, outside the property's quantifier)"]
@@ -929,9 +943,23 @@ class C17(Prop):
         w = line.split()
         out = []
         ops = w[2:]
+        kv = w[1].split(",")
+        # a candidate must stay a complete scenario: on a bidirectional stream the adapter side opened, the raw peer
+        # can write / reset / be asked what it was told only after it has LEARNT of the stream, i.e. after the
+        # announcing write (`pbg`, `w:…` in front); without it `pw` never happens and the line fails for a reason of
+        # its own (the shrinker once walked `… pbg w:D:5:1 pd1 stop:1 pw:1:1 pd pstopped` into `… pbg pd1 stop:1 …`)
+        keep = set()
+        if "kind=uni" not in kv and "dir=acc" not in kv and any(o.split(":")[0] in ("pw", "pfin", "prst", "prstnow", "pstopped")
+                                                              for o in ops):
+            for name in ("pbg", "w"):
+                for i, o in enumerate(ops):
+                    if o.split(":")[0] == name:
+                        keep.add(i)
+                        break
         # drop one op (from the end), then shrink sizes, then simplify the configuration
         for i in range(len(ops) - 1, -1, -1):
-            out.append(" ".join(w[:2] + ops[:i] + ops[i + 1:]))
+            if i not in keep:
+                out.append(" ".join(w[:2] + ops[:i] + ops[i + 1:]))
         for i, op in enumerate(ops):
             p = op.split(":")
             if p[0] in ("sd", "w") and len(p) == 4 and int(p[2]) > 0:
@@ -943,7 +971,6 @@ class C17(Prop):
                 out.append(" ".join(w[:2] + ops[:i] + ["ub:%d:%s" % (int(p[1]) // 2, p[2])] + ops[i + 1:]))
                 if len(p) > 3:
                     out.append(" ".join(w[:2] + ops[:i] + [":".join(p[:3])] + ops[i + 1:]))
-        kv = w[1].split(",")
         for i, x in enumerate(kv):
             if x.split("=")[0] in ("skip", "sw", "cw", "tw", "split"):
                 out.append(" ".join([w[0], ",".join(kv[:i] + kv[i + 1:])] + ops))
